@@ -9,7 +9,11 @@ RULE = ("C->S: for every exported TL-B type of packages tlb, wallet, abi (type l
         "Unmarshal, Marshal; Tlb_Trace accepts an event only if nothing panics and either the encoder refuses with an error or the "
         "decoded value equals the original (VM stacks in the documented opposite order), the re-encoding is the identical cell tree, "
         "and - wherever reflection yields a complete schema - the cell is exactly the one TlbSem!Enc prescribes (an independent third "
-        "opinion on bits and on the constructor chosen). S->C: the boundary-value vectors of Tlb_Gen for all primitive and combinator "
+        "opinion on bits and on the constructor chosen) AND the specification's total decoder TlbDec!Dec, reading that cell under the same "
+        "schema, returns exactly the recorded value with nothing left unread (an independent decode; it also judges values holding "
+        "NON-EMPTY dictionaries, for which Enc prescribes no unique cell: HashmapE nodes carry key width and value schema, dictionaries "
+        "are compared as [key bits, value] lists in ascending key order). Tlb_Gen checks Dec(Enc(v)) = v for every vector it emits and "
+        "Dec against the reference dictionary writer in every label form. S->C: the boundary-value vectors of Tlb_Gen for all primitive and combinator "
         "types are encoded and decoded by the library. Non-trivial = value other than the zero value; distinct = distinct (type, cell).")
 
 
@@ -38,8 +42,17 @@ def run(ck):
     empty = os.path.join(ck.work, "empty_schema.json")
     open(empty, "w").write("{}")
     types, withast, refused, distinct = set(), 0, 0, set()
+    judged = {"enc": 0, "dec": 0, "enc+dec": 0, "none": 0}
+    dict_dec = 0
     for tp, (res, rejected) in zip(traces, vlib.parallel(val, traces, n=8)):
         notes = cellcommon.notes_by_line(res)
+        by = {t[1]: t[2] for t in res.tuples("JD")}
+        for b in by.values():
+            judged[b] = judged.get(b, 0) + 1
+        evs_tp = vlib.read_ndjson(tp)
+        for ln, b in by.items():
+            if b in ("dec", "enc+dec") and '[["' in evs_tp[ln - 1].get("ds", ""):
+                dict_dec += 1
         for rj in rejected:
             e = rj["event"]
             note = (notes.get(rj["line"]) or [["no-action"]])[0][0]
@@ -59,6 +72,11 @@ def run(ck):
     ck.extra["types"] = len(types)
     ck.extra["roundtrips_with_independent_schema"] = withast
     ck.extra["encoder_refused"] = refused
+    ck.extra["bits_judged_by"] = judged                      # which oracle judged the bits of an accepted round trip
+    ck.extra["roundtrips_judged_by_Dec"] = judged["dec"] + judged["enc+dec"]
+    ck.extra["roundtrips_with_nonempty_dictionary_judged_by_Dec"] = dict_dec
+    if judged["dec"] + judged["enc+dec"] < withast // 2:
+        raise Infra("the specification's decoder judged only %d of %d round trips with a schema" % (judged["dec"] + judged["enc+dec"], withast))
     if len(types) < 300:
         raise Infra("only %d TL-B types were exercised" % len(types))
     evs = vlib.read_ndjson(traces[0])
@@ -68,13 +86,34 @@ def run(ck):
     c2 = copy.deepcopy(rt); c2["tree"] = c2["tree"][:2] + ("1" if c2["tree"][2] == "0" else "0") + c2["tree"][3:]; c2["tree2"] = c2["tree"]
     c3 = copy.deepcopy(rt); c3["enc"] = "panic: x"
     c4 = copy.deepcopy(rt); c4["dec"] = "err"
+    # the decoder's opinion alone: one bit of the structured cell changed (text form untouched) / the value text changed
+    c5 = copy.deepcopy(rt); c5["tj"]["b"] = c5["tj"]["b"][:-1] + ("1" if c5["tj"]["b"][-1] == "0" else "0")
+    c6 = copy.deepcopy(rt); c6["tj"]["b"] = c6["tj"]["b"] + "0"
+    c7 = copy.deepcopy(rt); c7["ds"] = c7["ds"] + " "
+    # a value with a non-empty dictionary: only Dec can judge it; one bit of the first leaf changed
+    dd = next((e for t in traces for e in vlib.read_ndjson(t) if e.get("k") == "RT" and e["enc"] == "ok" and e.get("hasast") and '[["' in e.get("ds", "")
+               and len(json.dumps(e)) < 20000 and leaf_of(e["tj"]) is not None), None)
+    if dd is None:
+        raise Infra("no round trip with a non-empty dictionary and a schema was recorded")
+    c8 = copy.deepcopy(dd); lf = leaf_of(c8["tj"]); lf["b"] = lf["b"][:-1] + ("1" if lf["b"][-1] == "0" else "0")
     p = os.path.join(ck.work, "canary.ndjson")
-    vlib.write_ndjson(p, [c1, c2, c3, c4, rt, {"k": "End"}])
+    vlib.write_ndjson(p, [c1, c2, c3, c4, rt, c5, c6, c7, c8, dd, {"k": "End"}])
     st = (ck.states, ck.transitions, ck.traces_ok, ck.evaluations)
     _, rej = ck.validate_events("Tlb_Trace", "trace/Tlb_Trace.cfg", p, name="canary", extra_files={"schema.json": empty})
     ck.states, ck.transitions, ck.traces_ok, ck.evaluations = st
-    ck.canary("C->S: changed value / changed bit (third opinion) / panic / decode error rejected, original accepted", [r["line"] for r in rej] == [1, 2, 3, 4])
+    ck.canary("C->S: changed value / changed bit (third opinion) / panic / decode error rejected, original accepted; Dec alone: changed bit / extra bit / "
+              "changed value text / changed bit in a dictionary leaf rejected, dictionary original accepted", [r["line"] for r in rej] == [1, 2, 3, 4, 6, 7, 8, 9])
     return ck.finish(rule=RULE, distinct=len(distinct) + len(vecs))
+
+
+def leaf_of(tj):
+    """deepest first-child cell with data bits (a dictionary leaf when the value holds a dictionary), or None"""
+    best, cur = None, tj
+    while cur.get("r"):
+        cur = cur["r"][0]
+        if cur.get("b"):
+            best = cur
+    return best
 
 
 def replay(ck, path):
